@@ -412,7 +412,7 @@ def run_case(case, sched):
         "evals": executed, "ops": len(case["ops"]),
         "key": hashlib.sha1(json.dumps([fx, case["ops"]], sort_keys=True, default=str).encode()).hexdigest()[:16],
         "nontrivial": K >= 2 and executed >= 8 and len(fns) >= 5 and env_count >= 2,
-        "probes": dict(stats, distinct_entry_points_in_case=len(fns)),
+        "probes": dict(stats, distinct_entry_points_in_case=len(fns), **{"entry:" + f: 1 for f in fns}),
         "faults": {"env_perturbations": env_count},
     }
 
